@@ -179,6 +179,8 @@ def subst_values(name, dom, tier):
         return vals
     n = dtype
     others = [o for o in ("i", "j", "k") if o != name]
+    if name not in SIZES:
+        others = ["i", "j", "k"]
     same = [o for o in others if SIZES[o] == n]
     vals.append(N(n - 1, n))
     vals.append(N(0, n))
@@ -196,6 +198,12 @@ def subst_values(name, dom, tier):
         vals.append(("Slice", name, 0, n, 2, n))
         vals.append(("Slice", "s", 0, n - 1, 1, n))
     vals.append(("B", "mod", ("B", "add", V("f", n), N(1, 2)), N(n, n + 1)))  # (f + 1) % n
+    if n >= 5:  # long inputs (concatenations): a grid of strided slices starting inside / at / after the first part
+        for start in (0, 1, 3, 4, 5, 6):
+            for stop in (n, n - 1, 7):
+                for step in (1, 2, 3):
+                    if start < stop <= n:
+                        vals.append(("Slice", "s", start, stop, step, n))
     return vals
 
 
